@@ -376,7 +376,9 @@ pub fn run(ctx: &Ctx) -> PropReport {
         |(cap, stack, ops)| json!({"cap": cap, "stack": stack, "ops": ops.iter().map(|o| o.to_json()).collect::<Vec<_>>()}),
     ));
     rep.push(run_sharded(ctx, "io-instructions", ctx.tier.pick(40_000, 400_000), io_program, run_io, |s| json!({"state": s.to_json(), "program": s.exec.iter().map(|x| x.render()).collect::<Vec<_>>().join(" ")})));
-    rep.push(crate::props::incontext::run(ctx, ctx.tier.pick(40_000, 600_000)));
+    for r in crate::props::incontext::run_all(ctx, ctx.tier.pick(40_000, 600_000)) {
+        rep.push(r);
+    }
     rep
 }
 
